@@ -74,7 +74,7 @@ func (vc *VC) specFor(v Term, t types.Type, st *State, depth int) (*valueSpec, b
 	if _, ok := vc.tt.isOpaque(t); ok {
 		return nil, false
 	}
-	switch u := t.Underlying().(type) {
+	switch u := U(t).(type) {
 	case *types.Basic:
 		if u.Kind() == types.Bool {
 			return &valueSpec{terms: []Term{v}, build: func(vals []*SExp, q *qualifier) (string, bool) {
@@ -166,8 +166,8 @@ func (vc *VC) specFor(v Term, t types.Type, st *State, depth int) (*valueSpec, b
 		}}, true
 	case *types.Pointer:
 		el := u.Elem()
-		if _, ok := el.Underlying().(*types.Struct); !ok {
-			if _, ok := el.Underlying().(*types.Basic); !ok {
+		if _, ok := U(el).(*types.Struct); !ok {
+			if _, ok := U(el).(*types.Basic); !ok {
 				return nil, false
 			}
 		}
@@ -273,6 +273,7 @@ type ReplayOutcome struct {
 // Replay re-solves the obligation asking for concrete inputs and runs the real function on them.
 func Replay(ctx *Ctx, fres *FuncResult, o *Obligation, secs int) ReplayOutcome {
 	vc := fres.VC
+	useCoreTypes = fres.Contract.CoreTypes
 	fn := vc.root
 	if fn == nil {
 		return ReplayOutcome{Status: "not-replayable", Detail: "lemma: nothing to execute"}
@@ -308,7 +309,7 @@ func Replay(ctx *Ctx, fres *FuncResult, o *Obligation, secs int) ReplayOutcome {
 	if o.Kind == "ensures" && vc.exitState != nil {
 		for i, r := range vc.resultTerms {
 			rt := fn.Signature.Results().At(i).Type()
-			switch rt.Underlying().(type) {
+			switch U(rt).(type) {
 			case *types.Basic, *types.Slice:
 				if sp, ok := vc.specFor(r, rt, vc.exitState, 0); ok {
 					rspecs = append(rspecs, sp)
